@@ -1,12 +1,15 @@
-use credx::presentation::Presentation;
+use crate::common::*;
 use crate::pres::*;
+use credx::statement::*;
 pub fn run() {
-    let h = std::fs::read_to_string("/verif/work/acc_bare.hex").unwrap();
-    let b = hex::decode(h.trim()).unwrap();
-    let q = serde_bare::from_slice::<Presentation<Bbs>>(&b).unwrap();
-    let b2 = serde_bare::to_vec(&q).unwrap();
-    println!("len {} {}", b.len(), b2.len());
-    for i in 0..b.len().min(b2.len()) { if b[i] != b2[i] { println!("first diff at {}: {:02x} vs {:02x}; context {}", i, b[i], b2[i], hex::encode(&b[i.saturating_sub(8)..(i+8).min(b.len())])); break; } }
-    let js = serde_json::to_string(&q).unwrap();
-    println!("{}", &js[..js.len().min(600)]);
+    let mut rng = Rng::new(5);
+    let mix = Mix { n_creds: 2, n_claims: 4, disclosed: vec![vec![], vec![]], equality: true, commitment: Some(1), verenc: Some((1, false)), membership: true, age: 40, ..Default::default() };
+    let scn = Scn::<Bbs>::build(&mut rng, &mix);
+    let p = scn.create().ok().unwrap();
+    println!("honest: {}", scn.verify(&p).class());
+    let stmts: Vec<Statements<Bbs>> = scn.schema.statements.values().map(|s| match s {
+        Statements::Commitment(c) => { let mut t = (**c).clone(); t.reference_id = "sig1".into(); t.into() }
+        o => o.clone() }).collect();
+    let s2 = credx::presentation::PresentationSchema::new_with_id(&stmts, &scn.schema.id);
+    println!("retargeted: {:?}", p.verify(&s2, &scn.nonce));
 }
